@@ -1,6 +1,7 @@
 import EupsModel.Lemmas.Expand
 import EupsModel.Lemmas.ExpandDeps
 import EupsModel.Lemmas.ExpandSetup
+import EupsModel.Lemmas.ExpandTable
 /-! C17 — an expanded table file reproduces the build-time versions exactly.  Property theorems only
 (the model is `Model/Expand.lean`, helper lemmas are in `Lemmas/Expand.lean`).
 
@@ -427,6 +428,81 @@ theorem C17_exact_reproduces_over_Setup (cfg : Setup.Cfg) (hk : cfg.keep = false
       simp only [CState.pinKeys, List.mem_map]
       exact ⟨(d.name, d.version), hm', rfl⟩
 
+/-! ## the expanded table read by the table parser (C11 model) and set up by `Eups.setup` (C01 model)
+
+`ExpandTable.expandedText items nl` is the text of the expanded table (the lines `output` prints, joined by newlines, with
+or without the final newline).  `ExpandTable.itemOK pdir` is what is asked of an item of the expansion (decidable, evaluated
+by the driver on every real expansion): a pin names a product and a version that can be written as bare arguments (not empty;
+no white space, comma, quote, backslash, `#`, `$`; not starting with `-`); a line of the input, as written back, is one line
+that `Table._rewrite` drops or passes on unchanged and that `Table._read` takes for a command or skips (not a line of the
+block structure, not a legacy `Flavor=`/`Group:` line, not a command with a wrong number of arguments); a blank / comment line
+stands for nothing.  `ExpandTable.inertItem pdir` is `Inert` made concrete: a line passed through outside the setup blocks is
+not a setup / unsetup command for the parser. -/
+
+/-- **`C17_exact_actions_text`: the TableParse step, discharged from the C11 model.**  For every successful expansion (no
+pre-existing exact block, `addExactBlock`) whose items are `itemOK`: the real reader's model — `Table._rewrite`, the block
+state machine and command parser of `Table._read`, the condition evaluator, `Table.actions(flavor, types)` — applied to the
+*text* of the expanded table, with `exact` among the setup types, returns exactly: for every pin line its action
+`setupRequired(n -j v)` (optional as written), for every line passed through outside the setup blocks what the reader makes
+of that line, and nothing for the table's own setup lines (they are inside `} else {` / `if (type != exact) {`).  Every flavor
+(other than the evaluator's four special tokens), every list of setup types that holds `exact`, every product. -/
+theorem C17_exact_actions_text (pdir : Option Str) (env : Cond.Env) (hfl : C11Spec.flavorOK env.flavor = true)
+    (hex : env.types.contains ExpandTable.sExactW = true)
+    (A : Answers) (o : Opts) (lines : List Str) (items : List Item)
+    (h : expandItems A o lines = .ok items) (hn : noExactLine A o lines = true) (ha : o.addExactBlock = true)
+    (hok : ∀ it ∈ items, ExpandTable.itemOK pdir it = true) (nl : Bool) :
+    TableParse.tableActions TableParse.repaired pdir env (ExpandTable.expandedText items nl)
+      = .ok (items.flatMap (ExpandTable.exactActs pdir)) :=
+  ExpandTable.expand_exact_actions pdir env hfl hex h hn ha hok nl
+
+/-- **`applies_exact_branch` and the text half of `pin_sets_exactly`, discharged.**  Under `inertItem` (the lines passed
+through are not setup / unsetup commands for the parser) the actions of the expanded table in exact mode that set a product
+up or take one away are, in order and each once, the pin actions of the collected closure `desiredProducts` — nothing of the
+inexact branches, nothing else. -/
+theorem C17_exact_setup_actions (pdir : Option Str) (env : Cond.Env) (hfl : C11Spec.flavorOK env.flavor = true)
+    (hex : env.types.contains ExpandTable.sExactW = true)
+    (A : Answers) (o : Opts) (lines : List Str) (items : List Item)
+    (h : expandItems A o lines = .ok items) (hn : noExactLine A o lines = true) (ha : o.addExactBlock = true)
+    (hok : ∀ it ∈ items, ExpandTable.itemOK pdir it = true) (hinert : ∀ it ∈ items, ExpandTable.inertItem pdir it = true)
+    (nl : Bool) :
+    ∃ acts st c, TableParse.tableActions TableParse.repaired pdir env (ExpandTable.expandedText items nl) = .ok acts ∧
+      readAll A o lines = .ok st ∧ collect A o st = .ok c ∧
+      acts.filter ExpandTable.isSetupAct = c.pinKeys.map (fun p => ExpandTable.pinAction p.1 p.2.1 p.2.2) ∧
+      acts.filterMap ExpandTable.toPin = c.pinKeys := by
+  obtain ⟨st, c, hr, hc, hpk⟩ := expand_pins h hn ha
+  refine ⟨_, st, c, ExpandTable.expand_exact_actions pdir env hfl hex h hn ha hok nl, hr, hc, ?_, ?_⟩
+  · rw [ExpandTable.setupActs_flatMap items hinert, hpk]
+  · rw [ExpandTable.toPin_flatMap items hinert, hpk]
+
+/-- **`C17_exact_reproduces_text`: exact reproduction from the text of the expanded table**, through the C11 model of the
+table reader and the C01 model of `Eups.setup` — no abstract exact-mode setup function, no `ExactSetupHyps`.  For a successful
+expansion (no pre-existing exact block, `addExactBlock`; items `itemOK`, lines passed through `inertItem`) whose build
+environment is the closure of the table (`DepsSound`, `Covered`, `-p` pins agree with the records), any later Setup database
+in which the recorded versions are still declared, and any state in which nothing but the top-level product is set up:
+reading the expanded text in exact mode succeeds, and running `Eups.setup`'s action loop in exact mode on the setup commands
+it yields (`toPin` = `Action.processArgs` on `[n, -j, v]`) succeeds and leaves, for every product other than the top-level
+one, exactly its build-time record.  (Actions other than setup / unsetup commands do not touch the records: `apply_recs`.) -/
+theorem C17_exact_reproduces_text (cfg : Setup.Cfg) (hk : cfg.keep = false) (hm : cfg.maxDepth = none) (fuel : Nat)
+    (top : Setup.Decl) (s : Setup.St)
+    (pdir : Option Str) (env : Cond.Env) (hfl : C11Spec.flavorOK env.flavor = true)
+    (hex : env.types.contains ExpandTable.sExactW = true)
+    (A : Answers) (o : Opts) (lines : List Str) (items : List Item)
+    (h : expandItems A o lines = .ok items) (hn : noExactLine A o lines = true) (ha : o.addExactBlock = true)
+    (hok : ∀ it ∈ items, ExpandTable.itemOK pdir it = true) (hinert : ∀ it ∈ items, ExpandTable.inertItem pdir it = true)
+    (hsound : DepsSound A) (hpins : ∀ n v, A.pin n = some v → A.sv n = some v)
+    (hcov : ∀ st, readAll A o lines = .ok st → Covered A o st)
+    (hdecl : ∀ n v, A.sv n = some v → declaredS cfg n v = true)
+    (hclean : ∀ n, o.toplevel ≠ some n → Setup.aget s.already n = none ∧ s.env.rec? n = none)
+    (htop : ∀ v, ∀ n, o.toplevel = some n → (n, v) ∉ (items.filterMap pinKey).map (·.2)) (nl : Bool) :
+    ∃ acts s', TableParse.tableActions TableParse.repaired pdir env (ExpandTable.expandedText items nl) = .ok acts ∧
+      Setup.acts (Setup.setup cfg (fuel + 1)) cfg true 0 false exactVro top ((acts.filterMap ExpandTable.toPin).map pinAct) s = .ok s' ∧
+      ∀ n, o.toplevel ≠ some n → recNames s'.env n = A.sv n := by
+  obtain ⟨s', hs', hrec⟩ := C17_exact_reproduces_over_Setup cfg hk hm fuel top s A o lines items h hn ha hsound hpins hcov hdecl
+    hclean htop
+  refine ⟨_, s', ExpandTable.expand_exact_actions pdir env hfl hex h hn ha hok nl, ?_, hrec⟩
+  rw [ExpandTable.toPin_flatMap items hinert]
+  exact hs'
+
 /-! ## concrete instances: the hypotheses are satisfiable, the theorems are not vacuous; negation witnesses -/
 
 /-- string literal as a list of code points -/
@@ -594,6 +670,40 @@ example : ∃ s', Setup.acts (Setup.setup setupCfg1 2) setupCfg1 true 0 false ex
       have hp : (items1.filterMap pinKey).map (·.2) = [(str! "b", str! "1"), (str! "c", str! "2"), (str! "d", str! "1")] := by decide +kernel
       rw [hp]
       simp)
+
+/-- `C17_exact_actions_text` / `C17_exact_reproduces_text` are not vacuous: the items of the example are `itemOK` and
+`inertItem`; in exact mode the expanded text of the example yields the `envPrepend` line's action and the three pin actions. -/
+def exactEnv1 : Cond.Env := ⟨str! "Linux", [str! "exact"]⟩
+def T1flat : List Str := T1.take 5
+def items1flat : List Item :=
+  [.orig 0 .blank (str! "# the table of product a\n"),
+   .gen 0 sIfNotExact, .orig 1 .setup (str! "setupRequired(b 1 [>= 1])"), .gen 0 sClose,
+   .orig 0 .other (str! "envPrepend(PATH, ${PRODUCT_DIR}/bin)\n"),
+   .gen 0 sIfExact, .pin 1 false (str! "b") (str! "1"), .pin 1 false (str! "c") (str! "2"), .pin 1 true (str! "d") (str! "1"),
+   .gen 0 sElse, .orig 1 .setup (str! "setupOptional(d -j 1 [>= 1])"), .orig 1 .setup (str! "setupOptional(x)"), .gen 0 sClose]
+theorem expand1flat : expandItems D1.toAnswers o1 T1flat = .ok items1flat := okItems_eq (by decide +kernel)
+example : items1flat.all (fun it => ExpandTable.itemOK none it && ExpandTable.inertItem none it) = true := by decide +kernel
+example : items1flat.flatMap (ExpandTable.exactActs none)
+    = [⟨str! "envPrepend", [str! "PATH", str! "${PRODUCT_DIR}/bin"], .append false⟩,
+       ExpandTable.pinAction false (str! "b") (str! "1"), ExpandTable.pinAction false (str! "c") (str! "2"),
+       ExpandTable.pinAction true (str! "d") (str! "1")] := by decide +kernel
+example : TableParse.tableActions TableParse.repaired none exactEnv1 (ExpandTable.expandedText items1flat true)
+    = .ok (items1flat.flatMap (ExpandTable.exactActs none)) :=
+  C17_exact_actions_text none exactEnv1 (by decide) (by decide) D1.toAnswers o1 T1flat items1flat expand1flat (by decide +kernel) rfl
+    (fun it hit => by
+      have : items1flat.all (fun it => ExpandTable.itemOK none it) = true := by decide +kernel
+      exact List.all_eq_true.mp this it hit) true
+
+/-- **`inertItem` cannot be dropped (observation O2).**  The expander recognises `setupRequired(` spelled exactly so; the
+table parser allows blanks before the parenthesis.  `setupRequired (x)` is passed through outside every block, the item is
+`itemOK` but not `inertItem`, and in exact mode the expanded table sets `x` up unpinned — whatever version is current then. -/
+theorem C17_inert_needed_witness :
+    okItems (expandItems D1.toAnswers o1 [str! "setupRequired (x)\n"]) [.orig 0 .other (str! "setupRequired (x)\n")] = true ∧
+    ExpandTable.itemOK none (.orig 0 .other (str! "setupRequired (x)\n")) = true ∧
+    ExpandTable.inertItem none (.orig 0 .other (str! "setupRequired (x)\n")) = false ∧
+    TableParse.tableActions TableParse.repaired none exactEnv1 (ExpandTable.expandedText [.orig 0 .other (str! "setupRequired (x)\n")] true)
+      = .ok [⟨str! "setupRequired", [str! "x"], .optional false⟩] := by
+  decide +kernel
 
 /-! ### negation witnesses: the two ways `C17_exact_reproduces` failed on the pinned tree -/
 
